@@ -365,7 +365,13 @@ func CommentTokens(src []byte) map[string]int {
 			break
 		}
 		if tok == token.COMMENT {
-			out[strings.ReplaceAll(lit, "\r", "")]++ // go/scanner drops carriage returns from comment text itself
+			lit = strings.ReplaceAll(lit, "\r", "") // go/scanner drops carriage returns from comment text itself
+			if strings.HasPrefix(lit, "//") {
+				// blanks at the end of a line comment are layout (a Statement separates its items by a blank, also
+				// before a Line() item), not text
+				lit = strings.TrimRight(lit, " \t")
+			}
+			out[lit]++
 		}
 	}
 	return out
@@ -373,6 +379,15 @@ func CommentTokens(src []byte) map[string]int {
 
 // ExpectedComment is the text a Comment(tx) must appear as, by the documented rule.
 func ExpectedComment(tx string) string {
+	if strings.HasPrefix(tx, "/*") {
+		// raw block form: the comment token is the text up to its closing marker (what follows is white space)
+		if i := strings.Index(tx, "*/"); i >= 0 {
+			return strings.ReplaceAll(tx[:i+2], "\r", "")
+		}
+	}
+	if strings.HasPrefix(tx, "//") {
+		return strings.TrimRight(strings.ReplaceAll(tx, "\r", ""), " \t") // raw line form
+	}
 	style := tx
 	tx = strings.ReplaceAll(tx, "\r", "") // compared with CommentTokens, which are free of carriage returns
 	if strings.Contains(style, "\n") {
@@ -382,7 +397,7 @@ func ExpectedComment(tx string) string {
 		}
 		return want + "*/"
 	}
-	return "// " + tx
+	return strings.TrimRight("// "+tx, " \t")
 }
 
 // ListGoFiles walks root (following the symlink at the root itself) and returns all .go files, sorted.
